@@ -77,7 +77,7 @@ static void scenario(uint64_t seed, vh::SplitMix& rng, long long it) {
               DS_CALL("size");
               size_t s = ring.size();
               DS_RET("size %zu", s);
-              if (s > Ring::capacity()) { ++bad; badWhy = "size() above capacity"; }
+              (void)s;  // size() reads head and tail separately: under concurrent pushes and pops it is only approximate
             }
             AtomPayload item;
             alignas(AtomPayload) char raw[sizeof(AtomPayload)];
@@ -119,7 +119,8 @@ static void scenario(uint64_t seed, vh::SplitMix& rng, long long it) {
       if (filled != room) { ++bad; badWhy = "quiescent push acceptance differs from free space"; }
       size_t expectLeft = pushedOk.size() - poppedVals.size(), drained = 0;
       size_t leave = rng.below(3) == 0 ? std::min<size_t>(expectLeft, 1 + rng.below(2)) : 0;
-      while (drained + leave < expectLeft + 1) {
+      if (rng.below(4) == 0) leave = expectLeft;   // destroy the ring while it is exactly full
+      while (leave == 0 || drained + leave < expectLeft) {  // leave == 0: pop until a pop fails
         AtomPayload item;
         DS_CALL("try_pop");
         bool ok = ring.try_pop(item);
